@@ -424,3 +424,35 @@ def machine_carrier(ck, rule):
                      "a narrower integer type makes the raw kernels (x.val * 2**k, products, sums) wrap far below 64 bits")
     if n == 0:
         raise AnalysisError("set_val: storage type definition not found")
+
+
+def indicator_after_record(ck, rule):
+    """C18.R2 (constructor side): the constructor installs a fresh status record (extended_prec: False) and only resize() recomputes the indicator from
+    the word length: on every normal path of __init__ a call that ends through resize (resize itself or the size initialiser) follows the last
+    store of the status record - also when like= / a template supplied the sizes and no size argument was given."""
+    prog = ck.prog
+    f = prog.func("objects.Fxp.__init__")
+    rz = prog.func("objects.Fxp.resize")
+    ini = prog.func("objects.Fxp._init_size", required=False)
+    ends = {rz.qualname} | ({ini.qualname} if ini is not None else set())
+    n = nbad = 0
+    for pf in fpaths(prog, f):
+        if pf.end == "raise":
+            continue
+        order = pf.order
+        si = [i for i, (k_, o) in enumerate(order) if k_ == "store" and o.path in ("self.status", "self.__dict__")]
+        if not si:
+            continue
+        n += 1
+        later = [i for i, (k_, o) in enumerate(order) if i > si[-1] and k_ == "call" and prog.resolve_call(o.ctx or f, o.raw) in ends]
+        if not later:
+            nbad += 1
+            ck.bad(rule, f, "the constructor recomputes the extended-precision indicator (through resize) after it installs the fresh status record",
+                   "normal path without resize() / _init_size() after the status record: guards %s" % [(src(g[0])[:40], g[1]) for g in pf.guards][-4:], f.node,
+                   "objects of 64+ bits built from like= / a template without size arguments report extended_prec = False")
+            break
+    if n == 0:
+        raise AnalysisError("__init__: no path storing the status record found")
+    if not nbad:
+        ck.ok(rule, f, "on all %d normal paths of __init__ a resize()/_init_size() call follows the status record" % n)
+    ck.saw(f, paths=n)
